@@ -58,9 +58,11 @@ def predict (input : String) : Option (String × String × String) :=   -- (mode
     let m := if neg == "none" then "na" else "fail"
     some (s!"sign=ok len=37 honest=ok neg={m}", m, m)   -- HMAC-SHA256 tag behind the 5-byte Tink key prefix
   | ["aead", kt, _, _, rotS, neg] => do
-    let rot ← rotS.toNat?
+    let rotTypes : List String := match rotS.toNat? with
+      | some n => List.replicate n kt
+      | none => rotS.splitOn ","
     let p := aeadKey kt 100
-    let ks := (List.range (rot + 1)).map fun i => aeadKey kt (100 + i)
+    let ks := p :: rotTypes.zipIdx.map fun (t, i) => aeadKey t (101 + i)
     let n := nonceOf p 1
     let (cipher, nonce) := Aead.encrypt p n 42 5
     let honest := showDec (Aead.decrypt ks cipher nonce 5) 42
